@@ -18,7 +18,8 @@ fn step_str(s: SearchStep) -> String {
 const PATS: &[&str] = &[
     "", "a", "\\d*", "\\d+", "a|", "(?:)", "b*", "x*?", "ab", "[ab]+", "^", "$", "\\b", "a?", ".", ".*", "é", "é*", "(?=a)", "(?<=a)", "a{2}", "\\B", "[^a]*", "(a)|b", "\u{1F600}?",
 ];
-const HAYS: &[&str] = &["", "a", "ab12cd", "aaa", "éa", "aéa", "a\u{1F600}b", "bab", "12", "x", "abab", "  a ", "ééé", "a1b22c333"];
+const HAYS: &[&str] = &["", "a", "ab12cd", "aaa", "éa", "aéa", "a\u{1F600}b", "bab", "12", "x", "abab", "  a ", "ééé", "a1b22c333",
+    "\u{FF01}ab", "a\u{7FF}\u{800}", "\u{FFFF}\u{10000}x", "\u{80}\x7f", "x\u{10FFFF}"];
 
 pub fn cmd_searcher(args: &[String]) {
     let seed: u64 = args[0].parse().unwrap();
